@@ -461,10 +461,7 @@ func (vc *VC) enterLoop(b *ssa.BasicBlock, l *loopInfo) {
 		}
 		leaf, ok := vc.keySort[m.key]
 		if !ok {
-			leaf = SInt
-			if strings.HasSuffix(m.key, "?bool") {
-				leaf = SBool
-			}
+			leaf = vc.eng.keySortHint(m.key)
 		}
 		M := vc.memGet(pre, m.key, leaf)
 		if m.obj == "" {
